@@ -952,7 +952,7 @@ def norm_of_defect(fn, lo, arg, defect_obj):
             ob = objkey(lo, q.get("obj"))
     if ob is None:
         return None, "the value tested (%s) is not recognisably a 2-norm of a vector (computed elsewhere?)" % render(e)[:60]
-    if defect_obj is None or defect_obj.startswith("?") or ob.startswith("?") or ob.startswith("$") != defect_obj.startswith("$") and (ob.startswith("$") or defect_obj.startswith("$")):
+    if defect_obj is None or defect_obj.startswith("?") or ob.startswith("?"):
         return None, "cannot identify the defect vector of this solver (argument of _set_initial_defect: %s; tested: norm of %s)" % (defect_obj, ob)
     if ob == defect_obj:
         return True, "norm of %s, the vector given to _set_initial_defect" % ob
@@ -1811,6 +1811,22 @@ def rule_apply_correct(ck, solvers):
                 if same:
                     cands, _summ, _fl = status_helpers(solvers.get(sc, {}), fn.cls, {})
                     dobj = find_defect_obj(same[0], Locals(same[0]), cands)
+                if dobj is not None and re.match(r"^\$\d+$", dobj):
+                    # _set_initial_defect measures a parameter of _apply_intern: identify it in this caller
+                    j = int(dobj[1:])
+                    cal = objkey(lo, call["a"][j]) if j < len(call.get("a", [])) else "?"
+                    if cal == "$1" and meth == "apply":
+                        # with the null start vector the right-hand side *is* the initial defect
+                        notes.append("[%s] _set_initial_defect measures %s itself (= the defect for the null start vector)" % (tag, p1["n"]))
+                        continue
+                    if cal == "$1":
+                        problems.append("[%s] _set_initial_defect in _apply_intern measures its parameter %d, i.e. the right-hand side %s itself, not the defect %s - A*%s that correct() computes: "
+                                        "for a non-zero start vector the initial defect, the relative tolerance base and an 'already converged' verdict belong to the wrong vector" % (tag, j, p1["n"], p1["n"], p0["n"]))
+                        continue
+                    if cal == "$0":
+                        problems.append("[%s] _set_initial_defect in _apply_intern measures the iterate %s instead of a defect vector" % (tag, p0["n"]))
+                        continue
+                    dobj = cal
                 if dobj is None or dobj.startswith("?") or dobj.startswith("$"):
                     ck.incomplete(rule, "%s: defect vector of _apply_intern not identified (%s)" % (where, dobj))
                     continue
@@ -2248,12 +2264,24 @@ def rule_inner_criteria(ck, solvers):
                     continue
                 f = formula(lo, n["c"])
                 code_atoms = sorted(f_atoms(f))
-                lefts = {split_top(a[3:-1])[0] for a in code_atoms if a.startswith("le(")}
-                if len(lefts) != 1:
-                    ck.incomplete("E13.inner-criteria", "%s line %s: the comparisons have different left operands %s (not the replicated criterion shape)" % (key, n.get("l"), sorted(lefts)))
+                sides = [set(split_top(a[3:-1])) for a in code_atoms if a.startswith("le(")]
+                common = set.intersection(*sides) if sides else set()
+                if len(common) != 1:
+                    ck.incomplete("E13.inner-criteria", "%s line %s: the comparisons share no single tested quantity %s (not the replicated criterion shape)" % (key, n.get("l"), [sorted(x) for x in sides]))
                     continue
-                dterm = lefts.pop()
+                dterm = common.pop()
                 ren, bad, unknown_atom = {}, [], None
+                # the same two operands compared the other way round: `D < R` (= !le(R,D)) where the criterion has `D <= R`
+                flipped = [a for a in code_atoms if a.startswith("le(") and split_top(a[3:-1])[1] == dterm and split_top(a[3:-1])[0] != dterm]
+                if flipped:
+                    bound = split_top(flipped[0][3:-1])[0]
+                    doc_op, code_form = ("<=", "%s < %s or %s >= %s") if kind == "converged" else (">", "%s >= %s or %s < %s")
+                    ck.ob("E13.inner-criteria", key, False,
+                          "line %s: the replicated test compares %s with %s as %s instead of `%s %s %s`: same operands, different strictness/orientation; witness %s == %s%s" % (
+                              n.get("l"), dterm, bound, code_form % (dterm, bound, dterm, bound), dterm, doc_op, bound, dterm, bound,
+                              " (inner_res_scale = 0 and an exactly zero inner residual: the documented stop for an exhausted Krylov space never fires)" if kind == "converged" else ""),
+                          fn.file, n.get("l"))
+                    continue
                 for a in code_atoms:
                     rw = _rewrite_inner_atom(a, dterm)
                     if rw is None:
